@@ -511,6 +511,17 @@ func registerCrypto(m *Machine) {
 				ct[i] = c.Fresh("rsa.ct", SBV, 8)
 			}
 			cs := m.cs()
+			// decryption is a function: equal ciphertexts under one key carry equal plaintexts
+			for _, e := range cs.encs {
+				if e.key != k.id || e.scheme != scheme || len(e.ct) != len(ct) {
+					continue
+				}
+				if len(e.pt) != len(pt) {
+					m.pc = append(m.pc, c.Not(termsEqual(c, e.ct, ct)))
+				} else {
+					m.pc = append(m.pc, c.Or(c.Not(termsEqual(c, e.ct, ct)), termsEqual(c, e.pt, pt)))
+				}
+			}
 			cs.encs = append(cs.encs, rsaEnc{key: k.id, scheme: scheme, pt: pt, ct: ct})
 			return Tuple{termSlice(ct), Iface{}}
 		}
@@ -537,10 +548,15 @@ func registerCrypto(m *Machine) {
 				return errDec()
 			}
 			for _, e := range m.cs().encs {
+				if e.key == k.id && e.scheme == scheme && sameTerms(e.ct, ct) {
+					return Tuple{termSlice(e.pt), Iface{}}
+				}
+			}
+			for _, e := range m.cs().encs {
 				if e.key != k.id || e.scheme != scheme || len(e.ct) != len(ct) {
 					continue
 				}
-				if sameTerms(e.ct, ct) || m.branch(termsEqual(c, e.ct, ct)) {
+				if m.branch(termsEqual(c, e.ct, ct)) {
 					return Tuple{termSlice(e.pt), Iface{}}
 				}
 			}
